@@ -90,6 +90,10 @@ enum {
 #ifndef TEARDOWN
 #define TEARDOWN 0    /* 1: orderly shut-down at the end: stop whoever is still suspended, print the reports, terminate and destroy everything (C10) */
 #endif
+static void ev_E(void *s, void *o);
+#ifndef CANCELE_PATTERN
+#define CANCELE_PATTERN 0   /* 1: CANCELE cancels the awaited event with cmb_event_pattern_cancel */
+#endif
 #ifndef OBSERVE
 #define OBSERVE 0     /* 1: condition observes the resource guard via cmb_resourceguard_register, 2: via cmb_condition_subscribe */
 #endif
@@ -545,7 +549,15 @@ static void step(int id, int op)
         after_block_r(id, r);
         break; }
     case OP_CANCELE:
-        if (E_state == 0) { sym_assert(cmb_event_cancel(E_handle), "cancel of the pending event"); E_state = 2; E_time = now; }
+        if (E_state == 0) {
+#if CANCELE_PATTERN
+            /* the event is cancelled by pattern, not by handle: its waiters are notified just the same */
+            sym_assert(cmb_event_pattern_cancel(ev_E, CMB_ANY_SUBJECT, CMB_ANY_OBJECT) == 1, "pattern cancel finds the pending event");
+#else
+            sym_assert(cmb_event_cancel(E_handle), "cancel of the pending event");
+#endif
+            E_state = 2; E_time = now;
+        }
         break;
     case OP_YIELD: {
         P[id].waiting = W_YIELD;
